@@ -70,6 +70,28 @@ def run(ctx):
             used = any(c for g in db for c in g.calls if (c.fn or '').endswith(fn.rsplit('::', 1)[-1]) and 'StorageImpl' in (c.name or ''))
             ctx.ob(R1, f'db·config←{fn.rsplit("::", 1)[-1]}', used, f'Database::run must fill the optimizer config from {fn}')
 
+    R3 = 'C05-R3'
+    ctx.rule(R3, 'sibling totality: every method of the storage traits (Storage, Table, Transaction, TxnIterator, RowHandler) has a '
+                 'body in both engines that does not diverge unconditionally (a todo!() in one engine makes a statement fail there '
+                 'and succeed on the other)')
+    traits = ('storage::Storage', 'storage::Table', 'storage::Transaction', 'storage::TxnIterator', 'storage::RowHandler')
+    by = {}
+    for b in prog.bodies.values():
+        tr = b.rec.get('impl_trait')
+        if tr in traits and b.root == b.name:
+            body = prog.bodies.get(b.name + '::{closure#0}', b) if b.rec.get('async') else b
+            by.setdefault((tr, b.name.rsplit('::', 1)[-1]), {})[b.rec.get('impl_self_adt')] = body
+    n3 = 0
+    for (tr, meth), impls in sorted(by.items()):
+        for adt, body in sorted(impls.items()):
+            n3 += 1
+            ctx.functions_analysed.add(body.name)
+            ctx.ob(R3, f'{tr.rsplit("::", 1)[-1]}::{meth}·{adt.rsplit("::", 1)[-1]}', not body.diverges(0),
+                   f'{body.name}: ' + ('diverges on every path (unimplemented)' if body.diverges(0) else 'implemented'), [body.loc])
+        ctx.ob(R3, f'{tr.rsplit("::", 1)[-1]}::{meth}·both-engines', len(impls) >= 2,
+               f'{tr}::{meth} implemented by {sorted(a.rsplit("::", 1)[-1] for a in impls)}', nontrivial=False)
+    ctx.floor(R3, n3, 36, 'storage trait method implementations')
+
     R2 = 'C05-R2'
     ctx.rule(R2, '(reported) functions that switch on the engine kind')
     sw = sorted({b.root for b in prog.bodies.values() for bl in b.blocks if bl['term']['k'] == 'switch'
